@@ -236,6 +236,7 @@ func interp[M any, R any](rec *recorder, s int, prog []string, ctx context.Conte
 
 func replaceReq(msg *kmip.RequestMessage, u, s int) *kmip.RequestMessage {
 	n := *msg
+	n.Header.BatchCount = 1
 	n.BatchItem = []kmip.RequestBatchItem{{Operation: kmip.OperationActivate, RequestPayload: &payloads.ActivateRequestPayload{UniqueIdentifier: msgID(u, s)}}}
 	return &n
 }
@@ -308,7 +309,19 @@ func (c *clientSys) close() { _ = c.cl.Close() }
 
 // server chains
 type srvSys struct {
-	ex *kmipserver.BatchExecutor
+	ex   *kmipserver.BatchExecutor
+	stop bool
+}
+
+// reqMsgStop: the request of the "srvmsg-stop" chain: the core of a message chain is the whole batch execution, and every
+// invocation of the continuation is a fresh execution of the message it is given. Batch <Activate, unrouted operation, Activate>
+// with option Stop: each execution runs the first item (one core event), fails the second, cancels the third - whatever an
+// earlier execution of the same request did.
+func reqMsgStop(u, m int) *kmip.RequestMessage {
+	msg := kmip.NewRequestMessage(kmip.V1_4, &payloads.ActivateRequestPayload{UniqueIdentifier: msgID(u, m)},
+		&payloads.QueryRequestPayload{}, &payloads.ActivateRequestPayload{UniqueIdentifier: msgID(u, m)})
+	msg.Header.BatchErrorContinuationOption = kmip.BatchErrorContinuationOptionStop
+	return &msg
 }
 
 type coreHandler struct{ rec *recorder }
@@ -349,7 +362,7 @@ func newSrvSys(rec *recorder, chain []string, item bool, late ...bool) system {
 			})
 		}
 	}
-	return &srvSys{ex}
+	return &srvSys{ex: ex}
 }
 
 func (s *srvSys) run(u int) (k string, f int) {
@@ -358,7 +371,11 @@ func (s *srvSys) run(u int) (k string, f int) {
 			k, f = "panic:"+vh.PanicSig(r), -1
 		}
 	}()
-	resp := s.ex.HandleRequest(context.Background(), reqMsg(u, 0))
+	msg := reqMsg(u, 0)
+	if s.stop {
+		msg = reqMsgStop(u, 0)
+	}
+	resp := s.ex.HandleRequest(context.Background(), msg)
 	return resOfMsg(resp, nil)
 }
 func (s *srvSys) close() {}
@@ -373,6 +390,10 @@ func build(rec *recorder, kind string, chain []string) (system, error) {
 		return newSrvSys(rec, chain, true), nil
 	case "srvmsg-late":
 		return newSrvSys(rec, chain, false, true), nil
+	case "srvmsg-stop":
+		sys := newSrvSys(rec, chain, false).(*srvSys)
+		sys.stop = true
+		return sys, nil
 	case "srvitem-late":
 		return newSrvSys(rec, chain, true, true), nil
 	}
@@ -389,7 +410,7 @@ type kindVariant struct {
 // every chain runs on the three real chains; chains that derive contexts additionally run on the two
 // server chains with derived contexts that are already cancelled
 func kindVariants(chain []string) []kindVariant {
-	kv := []kindVariant{{"client", false}, {"srvmsg", false}, {"srvitem", false}, {"srvmsg-late", false}, {"srvitem-late", false}}
+	kv := []kindVariant{{"client", false}, {"srvmsg", false}, {"srvitem", false}, {"srvmsg-late", false}, {"srvitem-late", false}, {"srvmsg-stop", false}}
 	for _, p := range chain {
 		if p == "newctx" || p == "thrice" {
 			return append(kv, kindVariant{"srvmsg", true}, kindVariant{"srvitem", true})
